@@ -1007,9 +1007,27 @@ FormatterToXML::flushChars()
 {
     assert(m_charBuf.empty() == false && m_charBuf.size() >= m_pos);
 
-    m_writer->write(&m_charBuf[0], 0, m_pos);
+    // If the buffer is full, and ends in the middle of a surrogate
+    // pair, keep the high surrogate until the low one arrives.  The
+    // transcoder cannot convert half of a pair.
+    const XalanDOMChar  theLastChar = m_pos != 0 ? m_charBuf[m_pos - 1] : 0;
 
-    m_pos = 0;
+    if (m_pos == s_maxBufferSize &&
+        theLastChar >= 0xD800u &&
+        theLastChar <= 0xDBFFu)
+    {
+        m_writer->write(&m_charBuf[0], 0, m_pos - 1);
+
+        m_charBuf[0] = theLastChar;
+
+        m_pos = 1;
+    }
+    else
+    {
+        m_writer->write(&m_charBuf[0], 0, m_pos);
+
+        m_pos = 0;
+    }
 }
 
 
